@@ -10,6 +10,7 @@
 import SnowProofs.Lemmas.FlakeStep
 import SnowProofs.Lemmas.FlakeGeom
 import SnowProofs.Props.C05
+import SnowProofs.Props.C06
 
 namespace Snow.C01
 open Snow Num Snow.Flake Snow.FlakeLemmas
@@ -265,6 +266,87 @@ theorem initIce_case_insensitive (s t : String) (h : s.toLower = t.toLower) :
     InitIce.ofString s = InitIce.ofString t := by
   unfold InitIce.ofString
   rw [h]
+
+/-! ### run level -/
+
+/-- "the new value `v'` of vial `i` (old value `v`) after step `k` of state `s` is one of the three
+transitions of the published model", with the net heat flow computed from the OLD state -/
+def IsTransition (ph : Phys) (p : Params ℝ) (isCN : Bool) (k : Nat) (Tsh : ℝ) (s : State ℝ) (i : Nat)
+    (v v' : Vial ℝ) : Prop :=
+  let q := heatFlow p (temps s) Tsh Tsh i
+  let tk := timeAt p.dt k
+  let m := vialMid p tk (anySolid s) v q
+  let nuc := nucleates p isCN m (p.kb.getD i 0) ((diceOf p k Tsh s).getD i 0)
+  (v.sigma = 0 ∧ nuc = false ∧ SpecLiquid ph p.dt q v.T v'.T v'.sigma) ∨
+  (v.sigma = 0 ∧ nuc = true ∧ ∃ Tn, SpecLiquid ph p.dt q v.T Tn 0 ∧ Tn < ph.TeqL ∧
+      SpecJumpSigma p.initIce ph Tn v'.sigma ∧ v'.T = ph.curve v'.sigma ∧
+      v'.TNuc = some Tn ∧ v'.tNuc = some (tk + p.dt)) ∨
+  (v.sigma ≠ 0 ∧ nuc = false ∧ SpecSolid ph p.dt q v.sigma v'.T v'.sigma)
+
+/-- **every recorded transition of a run is one of the three transitions** (PARTIAL — conditional
+on the monitored side condition, exactly as `C06.run_admissible_partial`): for a well-formed
+program inside the stable range, for every column `j` and every vial `i` of `runWith inp kCN`
+(in particular of `run inp`), the next column (the final state after the last step) is the step
+function applied to column `j`, and the vial's new value is a transition of the published model.
+The side hypothesis `hs` of `step_trichotomy` is discharged by C06's admissibility invariant
+(`0 ≤ σ < 1` in every column). -/
+theorem run_trichotomy_partial {ph : Phys} (inp : Inputs ℝ) (kCN : Nat) (hi : ℝ)
+    (hwf : Snow.C05.WF inp.oc inp.p.dt)
+    (st : Snow.C06.Stable ph inp.p inp.nVials inp.oc.stop hi)
+    (hT0 : inp.oc.start ≤ inp.T0) (hT0hi : inp.T0 ≤ hi) (hstart : inp.oc.start ≤ hi)
+    (hside : ∀ (j : Nat) (sj : State ℝ) (T : ℝ), (runWith inp kCN).traj[j]? = some sj →
+      (runWith inp kCN).Tshelf[j]? = some T → Snow.C06.SideCond ph inp.p sj T) :
+    ∀ (j : Nat) (sj : State ℝ) (T : ℝ), (runWith inp kCN).traj[j]? = some sj →
+      (runWith inp kCN).Tshelf[j]? = some T →
+      (j + 1 < (runWith inp kCN).traj.size →
+        (runWith inp kCN).traj[j + 1]? = some (step inp.p kCN j T sj)) ∧
+      (j + 1 = (runWith inp kCN).traj.size → (runWith inp kCN).final = step inp.p kCN j T sj) ∧
+      ∀ (i : Nat) (v : Vial ℝ), sj.vials[i]? = some v →
+        ∃ v', (step inp.p kCN j T sj).vials[i]? = some v' ∧
+          IsTransition ph inp.p (j == kCN) j T sj i v v' := by
+  intro j sj T hj hT
+  have hrs := run_steps inp kCN
+  simp only at hrs
+  refine ⟨fun h => hrs.2.2.2.1 j sj T hj hT h, ?_, ?_⟩
+  · intro h
+    have hpos : 0 < (runWith inp kCN).traj.size := by omega
+    have e : (runWith inp kCN).traj.size - 1 = j := by omega
+    have := hrs.2.2.2.2 sj T (by rw [e]; exact hj) (by rw [e]; exact hT) hpos
+    rw [e] at this; exact this
+  · intro i v hv
+    have hA := (Snow.C06.run_admissible_partial inp kCN hi hwf st hT0 hT0hi hstart hside j sj hj i v hv).1
+    have hs : v.sigma ≠ 0 → v.sigma ≠ 1 ∧ ph.bracket v.sigma ≠ 0 := by
+      intro h0
+      obtain ⟨h1, h2, _, _⟩ := Snow.C06.adm_solid hA h0
+      exact vial_trichotomy_admissible ph st.valid _ (le_of_lt h1) h2
+    exact step_trichotomy ph st.valid inp.p st.consts (ne_of_gt st.dt_pos) (j == kCN) j T sj i v hv hs
+
+/-- **a run on a declared shape uses the geometric heat flow**: when the parameters of the run
+are built by `Params.withShape` (which is what the driver does for the `arr`/`shape` the user
+configured, `Ops/Flake.lean`), then in every step of the run the new value of vial `i` is
+`vialStep`, whose net heat flow `heatFlow inp.p (temps s) T T i` is the sum over the geometric
+neighbours + free faces + shelf of `q_refines_shape`, and the inter-vial heat cancels
+(`heat_cancels_shape`) — the shape theorems are statements about runs. -/
+theorem run_uses_shape (inp : Inputs ℝ) (p0 : Params ℝ) (arr : Snow.Topology.Arr) (nx ny nz : Nat)
+    (hp : inp.p = p0.withShape arr nx ny nz) (kCN : Nat) :
+    ∀ (j : Nat) (sj : State ℝ) (T : ℝ), (runWith inp kCN).traj[j]? = some sj →
+      (runWith inp kCN).Tshelf[j]? = some T →
+      (∀ i, (step inp.p kCN j T sj).vials[i]? = (sj.vials[i]?).map (vialStep inp.p (j == kCN) j T sj i)) ∧
+      (∀ i, i < Snow.Topology.nTot nx ny nz →
+        heatFlow inp.p (temps sj) T T i =
+          (∑ j' ∈ (Finset.range (Snow.Topology.nTot nx ny nz)).filter
+              (fun j' => Snow.Topology.geomNbr arr (Snow.Topology.coords nx ny i)
+                (Snow.Topology.coords nx ny j') = true),
+              p0.kInt * p0.A * ((temps sj).getD j' 0 - (temps sj).getD i 0))
+          + ((Snow.Topology.maxNbr arr nz : ℝ) - (Snow.Topology.geomDeg arr nx ny nz i : ℝ))
+              * p0.kExt * p0.A * (T - (temps sj).getD i 0)
+          + p0.kShelf.getD i 0 * p0.A * (T - (temps sj).getD i 0)) ∧
+      ∑ i ∈ Finset.range (Snow.Topology.nTot nx ny nz), qInt inp.p (temps sj) i = 0 := by
+  intro j sj T _ _
+  refine ⟨fun i => ?_, fun i hi => ?_, ?_⟩
+  · simp only [step]; exact stepCN_getElem? inp.p (j == kCN) j T sj i
+  · rw [hp]; exact q_refines_shape p0 arr nx ny nz (temps sj) T T i hi
+  · rw [hp]; exact heat_cancels_shape p0 arr nx ny nz (temps sj)
 
 /-! ### non-vacuity: the default configuration (5 wt.% sucrose, 1 cm³ cubic vials) -/
 
